@@ -296,6 +296,10 @@ def start_weights(spec):
                         attrs=dict(spec["attrs"]))
 
 
+class OversizedAttributes(Exception):
+    pass
+
+
 def run_chain(chain, workdir, idx):
     def go():
         w = start_weights(chain.get("start"))
@@ -303,6 +307,11 @@ def run_chain(chain, workdir, idx):
         for j, call in enumerate(chain["calls"]):
             w, rec = run_call(call, w, workdir, idx * 10 + j)
             recs.append(rec)
+            # an attribute of a handful of calls has a few hundred characters; a value beyond 10^5 characters means the
+            # history grows out of proportion (a tree under test may double it per call): stop before it fills memory
+            big = {str(k): len(v) for k, v in getattr(w, "attrs", {}).items() if isinstance(v, str) and len(v) > 100000}
+            if big:
+                raise OversizedAttributes("after call %d of the chain the attribute values have %r characters" % (j + 1, big))
         out = {"calls": recs}
         if chain.get("netcdf"):
             out["netcdf"] = netcdf_roundtrip(w, chain.get("cont"), workdir, idx)
